@@ -273,6 +273,11 @@ def main(argv):
                 "decoder x MAXMSGSIZE) and raw/malformed streams decoded under 3 segmentations; generated from "
                 "random.Random(seed); non-trivial = at least one frame or slice row with a payload digest; distinct by case JSON")
     C.proof_stage(res, PROP, ["theories/Corr/C03Corr.vo"])
+    tok, _ = C.table_stage(res)
+    if not tok:
+        res.violation({"property": PROP, "broken": "Proofs/TablesCheck.v: flag bits / size constants extracted from /repo/core/src "
+                       "no longer equal the model's (x_flags_ok / x_limits_ok)", "theorems_relying_on_tie": THEOREMS,
+                       "log": res.extra.get("tables_check_log", "")}, found_input=False)
     rng = random.Random(seed)
     n = 500 if tier == "quick" else 6000
     cases = gen_cases(rng, n)
